@@ -48,6 +48,7 @@ type frameSpec struct {
 	padding          int    // link-layer bytes after the IP datagram
 	cutAt            int    // >=0: the frame is truncated to this many bytes
 	flagsFO          uint16 // flags and fragment offset word (0x4000 = don't fragment)
+	cutAtTotLen      bool   // the frame ends where its total-length field says (no bytes beyond it)
 }
 
 // buildFrame encodes an IPv4/UDP frame with correct checksums for the header as written.
@@ -55,6 +56,9 @@ func buildFrame(f frameSpec) []byte {
 	hl := f.ihl * 4
 	udpLen := 8 + len(f.payload)
 	tot := hl + udpLen
+	if f.padding < 0 {
+		f.padding = 0
+	}
 	b := make([]byte, tot+f.padding)
 	b[0] = f.version<<4 | byte(f.ihl&0xf)
 	binary.BigEndian.PutUint16(b[2:], uint16(tot+f.totLenDelta))
@@ -90,6 +94,9 @@ func buildFrame(f frameSpec) []byte {
 	}
 	if f.cutAt >= 0 && f.cutAt < len(b) {
 		b = b[:f.cutAt]
+	}
+	if n := tot + f.totLenDelta; f.cutAtTotLen && n >= 0 && n < len(b) {
+		b = b[:n]
 	}
 	return b
 }
@@ -403,6 +410,9 @@ func (st *rawState) frame(i int) ([]byte, string) {
 		f.totLenDelta = -(8 - short)
 		if t.Coin(2, 3) {
 			f.padding = t.Choose(40)
+		} else if t.Coin(1, 2) {
+			f.cutAtTotLen = true // a consistent runt: the frame really ends inside the UDP header
+			f.padding = -1
 		}
 		tag = fmt.Sprintf("ip-payload-%d-bytes", short)
 		s.Fault("frame-short-ip-payload")
@@ -470,6 +480,18 @@ func (st *rawState) frame(i int) ([]byte, string) {
 			s.Violate("W-legacy-frame", "client4.MakeRawUDPPacket: "+msg)
 		}
 		return append([]byte(nil), b...), "client4-frame"
+	}
+	// Shapes combine: IP options and link padding are orthogonal to most of the above (a
+	// runt UDP header behind IP options, a foreign port on a padded frame, ...).
+	if f.version == 4 && f.ihl == 5 && t.Coin(1, 4) {
+		f.ihl = 6 + t.Choose(10)
+		tag += fmt.Sprintf(" +ip-options ihl=%d", f.ihl)
+		s.Fault("frame-ip-options-combined")
+	}
+	if f.padding == 0 && t.Coin(1, 5) {
+		f.padding = 1 + t.Choose(46)
+		tag += fmt.Sprintf(" +padding %d", f.padding)
+		s.Fault("frame-padding-combined")
 	}
 	return buildFrame(f), tag
 }
